@@ -187,8 +187,11 @@ func (d *disconnectHandler) handleDisconnect() {
 
 // handleGracePeriodExpired is called when grace period expires
 func (d *disconnectHandler) handleGracePeriodExpired() {
+	// Do not hold d.mu while demoting: becomeFollower takes the election
+	// mutex, and Stop takes d.mu while holding the election mutex.
 	d.mu.Lock()
-	defer d.mu.Unlock()
+	disconnectedAt := d.disconnectedAt
+	d.mu.Unlock()
 
 	if d.election.connectionMonitor != nil {
 		if d.election.connectionMonitor.Status() != ConnectionStatusDisconnected {
@@ -204,7 +207,7 @@ func (d *disconnectHandler) handleGracePeriodExpired() {
 	// Still disconnected, demote if still leader
 	if d.election.isLeader.Load() {
 		log := d.election.getLogger()
-		disconnectedDuration := time.Since(d.disconnectedAt)
+		disconnectedDuration := time.Since(disconnectedAt)
 		log.Error("demoting_due_to_connection_loss",
 			append(d.election.logWithContext(d.election.ctx),
 				zap.Duration("disconnected_duration", disconnectedDuration),
